@@ -44,7 +44,22 @@ def build_vertices(vs):
 
 def build_nets(nets):
     from rig.netlist import Net
-    return [Net(s, list(sinks), w) for s, sinks, w in nets]
+    out = []
+    for i, (s, sinks, w) in enumerate(nets):
+        if len(sinks) == 1 and i % 2 == 0:
+            # the documented single-sink form (the sink may be a tuple: any
+            # hashable object is a vertex)
+            out.append(Net(s, sinks[0], w))
+            continue
+        given = list(sinks)
+        if isinstance(w, float) and w == 1.0 and i % 3 == 0:
+            out.append(Net(s, given))           # default weight
+        else:
+            out.append(Net(s, given, w))
+        # "the list is copied": what the caller does with it afterwards is
+        # none of the net's business
+        given.append(("never", "a", "vertex"))
+    return out
 
 
 def build_constraints(cons):
